@@ -118,6 +118,9 @@ def _optimizer(T, mask, N, nested=None, run=None):
     opt._nested_optimizer = nested
     opt._signal_evaluation = None
     if run is not None:
+        # the scenario replaces the private _run_evaluations by a stand-in written against its interface: if that interface is not the
+        # recorded one any more, the stand-in (and with it the scenario) does not bind
+        T.func(MO, "EnsembleOptimizer._run_evaluations").__name__  # noqa: B018  (raises ContractUnbound on a changed interface)
         opt._run_evaluations = run
     return opt
 
@@ -227,8 +230,8 @@ def scn_gradients(T, case):
         exp = T.under_contract(sh, ME, "EnsembleEvaluator._expand_gradients")
         gfr = T.under_contract(sh, MO, "EnsembleOptimizer._gradients_from_results")
     else:
-        exp = T.func(ME, "EnsembleEvaluator")._expand_gradients
-        gfr = T.func(MO, "EnsembleOptimizer")._gradients_from_results
+        exp = T.func(ME, "EnsembleEvaluator._expand_gradients")
+        gfr = T.func(MO, "EnsembleOptimizer._gradients_from_results")
     g1 = T.real("g1", (len(free),))
     g2 = T.real("g2", (2, len(free)))
     for g in (g1, g2):
